@@ -28,5 +28,22 @@ Proof. exact (var_positive inten q). Qed.
 Example C06_ex : tmpw 10 20 1 3 == 25 # 2 /\ approx 1 3 == 3 # 4.
 Proof. split; vm_compute; reflexivity. Qed.
 
+(* exchanging the roles of the forward and the backward direction changes neither tmpw nor tmpw_var_approx *)
+Theorem C06_directions_are_interchangeable Tf Tb vf vb : 0 < vf -> 0 < vb ->
+  tmpw Tf Tb vf vb == tmpw Tb Tf vb vf /\ approx vf vb == approx vb vf.
+Proof. exact (tmpw_symmetric Tf Tb vf vb). Qed.
+(* tmpw_var_approx is at least half the smaller of the two variances; with equal variances tmpw is the plain average and
+   tmpw_var_approx exactly half the common variance *)
+Theorem C06_approx_ge_half_min vf vb : 0 < vf -> 0 < vb -> vf <= vb -> vf / 2 <= approx vf vb.
+Proof. exact (approx_ge_half_min vf vb). Qed.
+Theorem C06_equal_variances Tf Tb v : 0 < v -> tmpw Tf Tb v v == (Tf + Tb) / 2 /\ approx v v == v / 2.
+Proof. exact (tmpw_equal_var Tf Tb v). Qed.
+(* tmpw is at least as close to the direction with the smaller variance *)
+Theorem C06_tmpw_nearer_the_better_direction Tf Tb vf vb : 0 < vf -> 0 < vb -> vf <= vb ->
+  (tmpw Tf Tb vf vb - Tf) * (tmpw Tf Tb vf vb - Tf) <= (tmpw Tf Tb vf vb - Tb) * (tmpw Tf Tb vf vb - Tb).
+Proof. exact (tmpw_nearer_the_better Tf Tb vf vb). Qed.
+
 Print Assumptions C06_tmpw_is_convex_combination. Print Assumptions C06_tmpw_between. Print Assumptions C06_celsius_shift_commutes.
 Print Assumptions C06_approx_le_min. Print Assumptions C06_lower_le_var. Print Assumptions C06_variance_positive.
+Print Assumptions C06_directions_are_interchangeable. Print Assumptions C06_approx_ge_half_min. Print Assumptions C06_equal_variances.
+Print Assumptions C06_tmpw_nearer_the_better_direction.
